@@ -21,7 +21,7 @@ func init() {
 		Explanation: "Theorem decided (reachability clause, for every guest and every argument value): from the WASI host functions no ambient-authority function of the Go standard library (real clocks, sleep, scheduler yield, os.*, net.*, syscall.*, crypto/rand, the global math/rand source, os/exec) is reachable in the over-approximated call graph " +
 			"except through the listed injection points (the clock/sleep/yield function fields and the random reader of the system context, and the sys.FS/sys.File/fsapi.File/socket/io interfaces of the descriptor table); every default binding of an injection point (what NewContext and the stdio constructors install when the option is nil) " +
 			"reaches none of them either and keeps its state in memory allocated by that constructor call (no package-level mutable variable); NewModuleConfig sets no capability field and toSysContext hands the fields over unmodified, so 'not configured' really is nil. " +
-			"NOT decided: byte-equality of traces across engines (that needs C01), behaviour with non-default configuration.",
+			"(R18.7) in the interpreter every nested call passes the running function's own instance as the calling module, so a WASI function acts on the sys context, clock, random source and descriptor table of the guest that called it; (R18.6) a module configuration is never written after it was handed out, so nothing an instantiation attaches (a socket listener taken from the context) sticks to a configuration the embedder reuses as the default. NOT decided: byte-equality of traces across engines (that needs C01), behaviour with non-default configuration.",
 		Assumptions: []string{
 			"sink list: time.{Now,Since,Until,Sleep,After,AfterFunc,Tick,NewTimer,NewTicker}, every function/method of os, net, syscall, os/exec, os/signal, os/user, crypto/rand, top-level functions of math/rand (global source), runtime.Gosched; error-formatting methods (Error/Unwrap/Is/Timeout/Temporary) and os file-mode/helper predicates are pure",
 			"functions of the pure utility packages (fmt formatting, errors, strings, bytes, encoding/binary, math, sort, slices, unicode, io helpers, path, sync, context, strconv, bufio, hash, time arithmetic on given values, math/rand with an explicit seeded source) have no ambient authority",
@@ -33,10 +33,14 @@ func init() {
 			{ID: "R18.2", Template: "T-CAP", Text: "default bindings of the injection points (nil option) reach no sink", Min: 6},
 			{ID: "R18.3", Template: "T-OWN", Text: "NewModuleConfig sets no capability field; toSysContext passes the capability fields unmodified", Min: 2},
 			{ID: "R18.4", Template: "T-OWN", Text: "default bindings keep their state per constructor call: no package-level mutable variable or shared object is read or written", Min: 1},
+			{ID: "R18.7", Template: "T-SIBLING", Text: "host functions (WASI) called from the interpreter receive the instance of the function that calls them (same analysis as C04 R04.13)", Min: 1},
+			{ID: "R18.6", Template: "T-OWN", Text: "a module configuration is never written after it was handed out (same ownership analysis as C19, seeded with the ModuleConfig implementation)", Min: 10},
 			{ID: "R18.5", Template: "T-DETERM", Text: "no iteration over a map in the WASI region", Min: 1},
 		},
 		Run: runC18,
 		Controls: []core.Control{
+			{Name: "wasi-called-with-another-guests-module", File: "internal/engine/interpreter/interpreter.go", Old: "\t\t\t\t// Revert to a normal call.\n\t\t\t\tce.callFunction(ctx, f.moduleInstance, tf)", New: "\t\t\t\t// Revert to a normal call.\n\t\t\t\tce.callFunction(ctx, m, tf)", Rule: "R18.7", Substr: "calling module"},
+			{Name: "sock-config-written-into-callers-config", File: "runtime.go", Old: "\t\t\tconfig = config.clone() // the caller's configuration must stay unchanged\n", New: "", Rule: "R18.6", Substr: "InstantiateModule"},
 			{Name: "nanosleep-defaults-to-real", File: "internal/sys/sys.go", Old: "\t\tsysCtx.nanosleep = platform.FakeNanosleep", New: "\t\tsysCtx.nanosleep = platform.Nanosleep", Rule: "R18.2", Substr: "nanosleep"},
 			{Name: "clock-calls-time-now", File: "imports/wasi_snapshot_preview1/clock.go", Old: "\tcase wasip1.ClockIDMonotonic:\n\t\tval = sysCtx.Nanotime()", New: "\tcase wasip1.ClockIDMonotonic:\n\t\tval = time.Now().UnixNano()", Rule: "R18.1", Substr: "wasi", Old2: "import (\n", New2: "import (\n\t\"time\"\n"},
 			{Name: "args-fall-back-to-os", File: "internal/sys/sys.go", Old: "func (c *Context) Args() [][]byte {\n\treturn c.args", New: "func (c *Context) Args() [][]byte {\n\tif c.args == nil {\n\t\tvar out [][]byte\n\t\tfor _, a := range os.Args {\n\t\t\tout = append(out, []byte(a))\n\t\t}\n\t\treturn out\n\t}\n\treturn c.args", Rule: "R18.1", Substr: "wasi", Old2: "import (\n", New2: "import (\n\t\"os\"\n"},
@@ -231,6 +235,8 @@ func injectionCut(c *core.Ctx) func(site ssa.CallInstruction, in *ssa.Function) 
 
 func runC18(c *core.Ctx) {
 	c.SSA()
+	checkModuleConfigNotWritten(c)
+	checkInterpCallerInstance(c, "R18.7")
 	cut := injectionCut(c)
 	roots := wasiFuncs(c)
 	if len(roots) < 40 {
@@ -726,4 +732,35 @@ func checkDefaultConfig(c *core.Ctx) {
 	if !found {
 		c.Undecided("R18.3", "toSysContext", 0, "no moduleConfig method calls internal/sys.NewContext")
 	}
+}
+
+
+// ---- R18.6 a module configuration handed to Instantiate is never written (host resources of one call do not stick to it) ----
+
+func checkModuleConfigNotWritten(c *core.Ctx) {
+	_, mcIface := lookupIface(c, "", "ModuleConfig")
+	if mcIface == nil {
+		c.Undecided("R18.6", "wazero.ModuleConfig", 0, "interface not found")
+		return
+	}
+	seeds := map[*types.Named]bool{}
+	for n := range configTypes(c) {
+		if types.Implements(types.NewPointer(n), mcIface) {
+			seeds[n] = true
+		}
+	}
+	if len(seeds) == 0 {
+		c.Undecided("R18.6", "module configuration type", 0, "no implementation of wazero.ModuleConfig found")
+		return
+	}
+	agg, keys, owned, _ := ownedWriteAnalysis(c, seeds)
+	for _, k := range keys {
+		g := agg[k]
+		if len(g.bad) == 0 {
+			c.Discharge("R18.6", k, g.fn.Pos(), fmt.Sprintf("%d write site(s) on ModuleConfig-owned memory, all on fresh unpublished memory", g.sites))
+		} else {
+			c.Violate("R18.6", k, g.pos[0].Pos, strings.Join(g.bad, "; ")+" – a configuration object the embedder may reuse is modified by an instantiation: what one call attached to it (a socket listener taken from the context, a name) is exposed to the next guest instantiated with the \"default\" configuration")
+		}
+	}
+	c.Count("moduleconfig_owned_write_sites", owned)
 }
